@@ -67,6 +67,44 @@ PROPS["C01"] = dict(
     ],
 )
 
+PROPS["C02"] = dict(
+    title="Aggregate BLS verification equals the pairing-product definition",
+    rule=("n positions (1..12, thorough to 40) filled from a pool of k keys and m (message, hasher) pairs through named shapes (all-distinct, all-equal, few-messages/many-keys, few-keys/many-messages, tie, duplicated pairs, pk and -pk on one message, "
+          "same point in separately decoded key objects, identity key injected); oracle Σ sk_i·H_i(m_i) by big-integer arithmetic; ~25 candidate signatures per case; each call repeated 3× (Go map order) and on a permutation of the triples; "
+          "VerifyBLSSignatureOneMessage compared with Verify under the aggregated key and with the oracle; single-fault error inputs. Non-trivial = n ≥ 2 with a repeated key or message; distinct by draw-record hash."),
+    assumptions=BLS_ASSUME,
+    jobs=[
+        J("TestC02_ManyMessages", 120, 1200, shards=12),
+        J("TestC02_OneMessage", 120, 1200, shards=3),
+        J("TestC02_Errors", 200, 1500, shards=1),
+    ],
+)
+
+PROPS["C03"] = dict(
+    title="Batch verification agrees index-by-index with individual verification",
+    rule=("positions on one message, each valid or invalid by a generated kind (swapped pair, s_i+d with s_j-d, three-way cancellation, bit flip, s+T outside G1, identity signature, wrong length, identity key, other message, negated, malformed); "
+          "expected[i] := signature bytes equal the oracle's sk_i·H(m) and key not identity; checked against BatchVerify and (generated job) against Verify; all 2^n subsets of invalid positions for n ≤ 4 (thorough n ≤ 7); input-error cases. "
+          "Non-trivial = at least one valid and one invalid position; distinct by draw-record hash (generated) / by construction (subsets)."),
+    assumptions=BLS_ASSUME + ["the 2^-128 soundness error of the batch coefficients (crypto/rand inside the library) is ignored"],
+    jobs=[
+        J("TestC03_Generated", 250, 2500, shards=10),
+        J("TestC03_Subsets", 6, 6, shards=4),
+        J("TestC03_Errors", 150, 1000, shards=1),
+    ],
+)
+
+PROPS["C04"] = dict(
+    title="Key and signature aggregation are mutually consistent group homomorphisms",
+    rule=("multisets of 1..10 private scalars (duplicates, additive inverses, zero sums), a message and hasher, a generated permutation and binary nesting, a split A⊎B for removal; oracle Σsk mod r, (Σsk)·g2, (Σsk)·H(m); "
+          "plus plain E1 sums with operands outside G1, plus error inputs. Non-trivial = size ≥ 3 with a duplicate, inverse pair, nesting depth ≥ 2 or identity sum; distinct by draw-record hash."),
+    assumptions=BLS_ASSUME,
+    jobs=[
+        J("TestC04_Homomorphism", 200, 1500, shards=10),
+        J("TestC04_NonG1", 200, 1500, shards=2),
+        J("TestC04_Errors", 150, 1000, shards=1),
+    ],
+)
+
 
 def custom_command(job, tier, n, seed, rundir, repo, verif, work):
     raise RuntimeError("no custom job kinds yet: %r" % job.get("kind"))
